@@ -4,6 +4,7 @@ package fakes
 
 import (
 	"context"
+	"fmt"
 	"time"
 
 	kerrors "k8s.io/apimachinery/pkg/api/errors"
@@ -223,6 +224,10 @@ func ErrorOfKind(kind int, name string) error {
 		return kerrors.NewAlreadyExists(execution.Resource("job"), name)
 	case 4:
 		return kerrors.NewNotFound(execution.Resource("job"), name)
+	case 6:
+		return context.DeadlineExceeded // a single client-side timeout of one call
+	case 7:
+		return fmt.Errorf("Post %q: %w", name, context.Canceled)
 	}
 	return kerrors.NewBadRequest("bad")
 }
